@@ -764,8 +764,9 @@ def pair_rules(n, env, guards, depth=0):
     return None
 
 
-def names_from_tokens(ctx, rid, core, G):
-    ctx.rule(rid, "text that becomes a name, key or string in the tree is the text of a pair that cannot contain optional layout (an atomic token, or the single token child of a wrapper): the text of a composite pair includes the spaces pest admits between its parts", floor=6)
+def names_from_tokens(ctx, rid, core, G, declare=True):
+    if declare:
+        ctx.rule(rid, "text that becomes a name, key or string in the tree is the text of a pair that cannot contain optional layout (an atomic token, or the single token child of a wrapper): the text of a composite pair includes the spaces pest admits between its parts", floor=6)
     from lib import scope
     n_sites = 0
     for name, f0 in sorted(core.hir.items()):
